@@ -297,6 +297,7 @@ pub fn steps_json(steps: &[ReadStep]) -> Value {
                 ReadStep::Err(k) => json!({"err": kind_name(*k)}),
                 ReadStep::Pending => json!("pending"),
                 ReadStep::Stall => json!("stall"),
+                ReadStep::RealPause(ms) => json!({"real_pause_ms": ms}),
             })
             .collect(),
     )
@@ -309,6 +310,8 @@ pub fn steps_from(v: &Value) -> Option<Vec<ReadStep>> {
                 Some(ReadStep::Data(unhex(d)?))
             } else if let Some(e) = s.get("err").and_then(|d| d.as_str()) {
                 Some(ReadStep::Err(kind_from(e)))
+            } else if let Some(ms) = s.get("real_pause_ms").and_then(|d| d.as_u64()) {
+                Some(ReadStep::RealPause(ms))
             } else if s.as_str() == Some("pending") {
                 Some(ReadStep::Pending)
             } else if s.as_str() == Some("stall") {
